@@ -51,3 +51,11 @@ package pod
 //@   pure
 //@   trusted
 //@   reads nothing
+//@
+//@ func GetNodeNameFromPod
+//@   transparent
+//@   requires pod != nil
+//@ func CreatePodFromDaemonSetReplicaSet
+//@   trusted
+//@   modifies nothing
+//@   ensures result != nil && fresh(result)
